@@ -39,6 +39,9 @@ CHECKS = {
     "C33": ("structural", "model_checking", "TLA+ Structural.tla: links and the conditional-format area and rule reference are displaced by the same sigma as formulas; Clear / Undo / CutPaste actions; ClearUndoIdentity invariant; every behaviour replayed and get_links_list / get_conditional_formatting_list compared",
             "Link positions, CF area and CF rule formula after every step of every behaviour (all structural edits, clear, undo of clear, cut and paste of a linked cell).",
             "One rule, one area; copy (not cut) and paste over occupied cells are not modelled here.", "4 C33"),
+    "C05": ("recalc", "model_checking", "TLA+ Recalc.tla (Val: the value function of a small workbook with references, sums, lazy IF and dynamic arrays; CircOnlyOnCycles invariant) with TLC; every editing history replayed on UserModel with every cell compared after every edit",
+            "All histories of 2 edits (exhaustive) and seeded simulated histories of 6 (thorough 8) edits over ~20 contents per cell incl. cycles, self-including ranges, cross-sheet references; #CIRC! exactly where the evaluation re-enters a cell or reads one that shows it.",
+            "5 cells; functions beyond +, SUM, IF, SEQUENCE are C06's.", "4 C05"),
     "C06": ("cases", "model_checking", "TLA+ Value.tla: a reference evaluator of the core formula language (exact rationals, coercion, comparison order, error propagation, direct vs referenced arguments) evaluated by TLC on every enumerated formula; each formula typed into the engine and the values compared",
             "Every construct over 22 leaves at depth 1 (10 612 formulas, quick) and over depth-1 operands at depth 2 (108 136, thorough) on a sheet holding every value type; TypeOK invariant on the evaluator.",
             "The reference semantics is this module's reading of the spreadsheet rules; cases it cannot state exactly carry no verdict.", "4 C06"),
@@ -48,6 +51,9 @@ CHECKS = {
     "C17": ("frames", "model_checking", "TLA+ FrameLaws.tla (RenameInRefs, DupValuesOK, RenameCaptures) / Frames.tla design model / TraceFrames.tla trace validation",
             "Rename: values unchanged, every spelled sheet name follows the rename and all others (incl. nonexistent sheets) are unchanged; move: values and spellings unchanged; duplicate: old sheets unchanged, the copy computes what its source computes - in every language.",
             "Formulas reading sheet names as text are excluded; a rename that captures dangling references carries no value verdict.", "4 C17"),
+    "C31": ("recalc", "model_checking", "TLA+ Recalc.tla (Height, SpillAt, SpillOwner; SpillsExact invariant) with TLC; spill membership and values compared after every edit of every history",
+            "SEQUENCE heights that depend on other cells (incl. other spills), blocked and unblocked areas, anchors overwritten, heights shrinking and growing along editing histories: exact n-cell fill or #SPILL! with nothing filled, no stale spill cell.",
+            "One column, downward spills only; a height that depends on its own spill carries no verdict.", "4 C31"),
     "C32": ("frames", "model_checking", "TLA+ FrameLaws.tla (RenameInNames, RenameInUses, NamesSurviveDelete) / TraceFrames.tla trace validation",
             "Stored names unchanged by language, locale, sheet move, reload and xlsx round trip; follow sheet renames; survive deleting other sheets; renaming a name (global, local, LAMBDA, range) updates its uses and changes no value.",
             "The xlsx leading-'=' difference of LAMBDA names is a recorded finding.", "4 C32"),
@@ -83,6 +89,9 @@ CHECKS = {
     "C30": ("cases", "model_checking", "TLA+ Styles.tla (Assign, ReadBack, NoAliasing) with TLC; every assignment sequence replayed on set_cell_style / set_row_style / set_column_style and read back",
             "All sequences of 2 (quick) / 3 (thorough) assignments over 4 targets x 18 styles; 7 reads (targets and untouched probes) compared after each step, and again after a binary reload.",
             "Style pool chosen so that each attribute is varied alone.", "4 C30"),
+    "C07": ("recalc", "model_checking", "TLA+ Recalc.tla: the demanded values are a function of the contents alone; every final workbook of its behaviours is rebuilt in other input orders, with paused evaluation, with a reload, and evaluated twice",
+            "9 rebuild variants per behaviour (3 orders x 3 modes) + second evaluation, all compared with what the editing history shows.",
+            "Dynamic arrays feeding other formulas included; volatile functions excluded as the statement does.", "4 C07"),
     "C08": ("cases", "exploration", "TLA+ Finite.tla supplies the case space (argument-class vectors x result shapes) and the invariant; the harness crosses it with all built-in functions and operators and scans every stored number",
             "~1100 (vector, shape) cases x ~485 functions + operators per run; every cell of the workbook checked with f64::is_finite after evaluation; typed overflow numbers too.",
             "No semantic oracle comes from the specification (there is no arithmetic to model): level exploration.", "4 C08"),
@@ -132,6 +141,7 @@ def main():
             {"name": "cases", "path": "spec/{Calendar,Grid,Lang,F4,NumberInput,NumberFormat}.tla, bin/fam_cases.py, harness/src/cases.rs", "serves_properties": ["C06", "C08", "C09", "C11", "C25", "C29", "C30", "C19", "C20", "C21", "C22", "C23", "C34"], "kind_free_text": "TLC case enumeration with expected results, replayed on the implementation"},
             {"name": "structural", "path": "spec/Structural.tla, bin/fam_cases.py (StructuralFam), harness/src/structural.rs", "serves_properties": ["C12", "C13", "C14", "C15", "C33"], "kind_free_text": "TLC behaviour enumeration with expected abstract state, replayed on the implementation"},
             {"name": "xlsxrt", "path": "spec/Xlsx.tla, spec/TraceXlsx.tla, bin/fam_xlsx.py, harness/src/xlsxrt.rs", "serves_properties": ["C24"], "kind_free_text": "TLC trace validation of recorded export/import round trips"},
+            {"name": "recalc", "path": "spec/Recalc.tla, bin/fam_cases.py (RecalcFam), harness/src/recalc.rs", "serves_properties": ["C05", "C07", "C31"], "kind_free_text": "TLC behaviour enumeration + simulation with expected values, replayed on the implementation"},
             {"name": "frames", "path": "spec/FrameLaws.tla, spec/Frames.tla, spec/TraceFrames.tla, bin/fam_xlsx.py, harness/src/frames.rs", "serves_properties": ["C10", "C17", "C32"], "kind_free_text": "TLC trace validation of per-operation frame laws"},
             {"name": "reentry", "path": "spec/Reentry.tla, spec/TraceReentry.tla, bin/fam_xlsx.py, harness/src/reentry.rs", "serves_properties": ["C18"], "kind_free_text": "TLC input enumeration + trace validation of type / re-enter events"},
             {"name": "structure", "path": "spec/TraceWellFormed.tla", "serves_properties": ["C27"], "kind_free_text": "TLC trace validation of a state predicate"},
